@@ -8,6 +8,7 @@ from typing_extensions import override
 from .decodestate import DecodeState
 from .diagcodedtype import DctType, DiagCodedType
 from .encodestate import EncodeState
+from .encoding import get_string_encoding
 from .exceptions import EncodeError, odxassert, odxraise, odxrequire
 from .odxlink import OdxDocFragment
 from .odxtypes import AtomicOdxType, DataType
@@ -59,7 +60,14 @@ class LeadingLengthInfoType(DiagCodedType):
                 f"not {type(internal_value).__name__}", EncodeError)
             return
 
-        byte_length = self._minimal_byte_length_of(internal_value)
+        if isinstance(internal_value, str):
+            # the length is the number of bytes of the string in its
+            # encoded form (which depends on the specified encoding)
+            str_encoding = get_string_encoding(self.base_data_type, self.base_type_encoding,
+                                               self.is_highlow_byte_order)
+            byte_length = len(internal_value.encode(str_encoding or "utf-8"))
+        else:
+            byte_length = len(internal_value)
 
         used_mask = None
         bit_pos = encode_state.cursor_bit_position
@@ -81,7 +89,7 @@ class LeadingLengthInfoType(DiagCodedType):
             used_mask=None,
             bit_length=8 * byte_length,
             base_data_type=self.base_data_type,
-            base_type_encoding=None,
+            base_type_encoding=self.base_type_encoding,
             is_highlow_byte_order=self.is_highlow_byte_order,
         )
 
@@ -105,7 +113,7 @@ class LeadingLengthInfoType(DiagCodedType):
         value = decode_state.extract_atomic_value(
             bit_length=8 * byte_length,
             base_data_type=self.base_data_type,
-            base_type_encoding=None,
+            base_type_encoding=self.base_type_encoding,
             is_highlow_byte_order=self.is_highlow_byte_order,
         )
 
